@@ -223,7 +223,9 @@ def run_history(dt, ops):
             if seq in pending:
                 viol.append(("delay-steps", f"{what} is still queued after step {sim.step_no}, expected to be handled in step {due}"))
             else:
-                viol.append(("lost", f"{what} was never handled although id {v['rid']} was alive in step {due} ({sim.step_no} steps run)"))
+                # a delayed event that left the queue in a wrong step (receiver absent then) shows up here: same class
+                viol.append(("delay-steps" if n > 0 else "lost",
+                             f"{what} was never handled although id {v['rid']} was alive in step {due} ({sim.step_no} steps run)"))
     order = {}
     for st, agent, seq in sim.handled:
         order.setdefault((st, agent, sim.sent[seq]["sent_at"]), []).append(seq)
@@ -279,6 +281,14 @@ def gen_lean(f):
     b = lambda x: "true" if x else "false"
     body = ("theorem model_applies : facts.good = true := by decide\n" if good else
             "theorem model_does_not_apply : facts.good = false := by decide\n")
+    # the mechanism of the pinned tree behind each failed probe, as a kernel-checked witness (the harness replays
+    # the same inputs on the implementation: corpus/C11)
+    if not f["routesById"]:
+        body += "theorem pinned_positional_lookup : type_of% C11_witness_positional := C11_witness_positional\n"
+    if not f["delayStepsExact"]:
+        body += "theorem pinned_float_countdown : type_of% C11_witness_float_countdown := C11_witness_float_countdown\n"
+    if not f["requeueFifo"]:
+        body += "theorem pinned_requeue_reversal : type_of% C11_witness_requeue_reversal := C11_witness_requeue_reversal\n"
     return ("import Bptk.Props.C11\n/-! GENERATED by harness/props/c11.py from /repo on every run — do not edit. -/\n"
             "namespace Bptk.C11.Gen\n"
             f"def facts : Facts := {{ routesById := {b(f['routesById'])}, delayStepsExact := {b(f['delayStepsExact'])}, "
@@ -426,7 +436,7 @@ def run(chk):
     ]
     rng = chk.rng.fork("c11")
     cases = []                                    # (dt, ops, tag)
-    L = 3 if chk.quick else 4
+    L = 3 if chk.quick else 5
     cdir = os.path.join(VERIF, "corpus", "C11")          # minimised past failing inputs, run first
     for fn in sorted(os.listdir(cdir)) if os.path.isdir(cdir) else []:
         if fn.endswith(".json"):
@@ -436,7 +446,7 @@ def run(chk):
     for ops in small_histories(L):
         cases.append(("1", ops, "exh"))
     n_exh = len(cases) - n_corpus
-    for i in range(350 if chk.quick else 6000):
+    for i in range(350 if chk.quick else 20000):
         dt = DTS[i % len(DTS)]
         cases.append((dt, rand_history(rng, dt), "rand"))
     chk.cov["rule"] = (f"all histories of length {L} (after create a, create b; followed by 4 flushing steps) over the alphabet {{create, step, "
@@ -468,7 +478,7 @@ def run(chk):
     chk.cov["input_distribution"] = dist
     # ---- delay -> steps lattice: Lean stepsOf vs exact fractions vs the real countdown
     lat = []
-    for dt in DTS + ["0.125", "0.04", "0.025", "0.02", "0.01"]:
+    for dt in DTS + ["0.125", "0.04", "0.025", "0.02", "0.01", "0.3", "0.15", "0.7", "2", "1.5"]:
         d = Fraction(dt)
         for kk in range(0, 41 if chk.quick else 201):
             lat.append((str(float(kk * d)) if "." in dt else str(kk * int(dt)), dt))
